@@ -1,12 +1,555 @@
-/- C01 model — placeholder until the property is built -/
-import Klong.Model.Wire
+/-
+  C01 — primitive verbs: the reference (`Ref.*`, transcribed from the Klong manual text in
+  the docstrings of monads.py / dyads.py) and the implementation model (`Impl.*`, mirroring
+  the Python control flow in terms of Python slicing and the numpy calls used).
+
+  Reals are carried by bit pattern; scalar real arithmetic is `Float` (opaque to proofs —
+  the theorems are about structure: recursion, extension, index arithmetic).
+-/
+import Klong.Model.Val
 namespace Klong.C01
+open Klong
+
+/-! ## numbers -/
+
+def toF : Val → Option Float
+  | .int n => some (Float.ofInt n)
+  | .real b => some (Float.ofBits b)
+  | _ => none
+
+def ofF (x : Float) : Val := .real x.toBits
+
+def b2i (b : Bool) : Val := .int (if b then 1 else 0)
+
+/-- Python/numpy `fmod` on integers: sign of the dividend -/
+def ifmod (a b : Int) : Int := Int.tmod a b
+
+/-- atomic dyads modelled -/
+inductive AOp | add | sub | mul | min | max | lt | gt | eq | rem | idiv
+deriving Repr, DecidableEq
+
+def lexLt : List Nat → List Nat → Bool
+  | [], [] => false
+  | [], _ :: _ => true
+  | _ :: _, [] => false
+  | a :: as, b :: bs => if a < b then true else if b < a then false else lexLt as bs
+
+/-- the verb on two atoms (`none` = the reference defines nothing / the code raises) -/
+def scalar2 (op : AOp) : Val → Val → Option Val
+  | .int a, .int b =>
+    match op with
+    | .add => some (.int (a + b))
+    | .sub => some (.int (a - b))
+    | .mul => some (.int (a * b))
+    | .min => some (.int (if a ≤ b then a else b))
+    | .max => some (.int (if a ≤ b then b else a))
+    | .lt => some (b2i (a < b))
+    | .gt => some (b2i (a > b))
+    | .eq => some (b2i (a == b))
+    | .rem => if b == 0 then none else some (.int (ifmod a b))
+    | .idiv => if b == 0 then none else some (.int (Int.tdiv a b))
+  | .chr a, .chr b =>
+    match op with
+    | .lt => some (b2i (a < b))
+    | .gt => some (b2i (a > b))
+    | .eq => some (b2i (a == b))
+    | _ => none
+  | .str a, .str b =>
+    match op with
+    | .lt => some (b2i (lexLt a b))
+    | .gt => some (b2i (lexLt b a))
+    | .eq => some (b2i (a == b))
+    | _ => none
+  | .sym a, .sym b =>
+    match op with
+    | .eq => some (b2i (a == b))
+    | _ => none
+  | a, b =>
+    match toF a, toF b with
+    | some x, some y =>
+      match op with
+      | .add => some (ofF (x + y))
+      | .sub => some (ofF (x - y))
+      | .mul => some (ofF (x * y))
+      | .min => some (ofF (if x ≤ y then x else y))
+      | .max => some (ofF (if x ≤ y then y else x))
+      | .lt => some (b2i (x < y))
+      | .gt => some (b2i (x > y))
+      | .eq => some (b2i (x == y))
+      | _ => none
+    | _, _ => none
+
+/-! ## reference: atomic extension (manual: "atomic operator") -/
+
+mutual
+def refA2 (f : Val → Val → Option Val) : Val → Val → Option Val
+  | .list xs, .list ys => (refZip f xs ys).map .list
+  | .list xs, b => (refMapL f xs b).map .list
+  | a, .list ys => (refMapR f a ys).map .list
+  | a, b => f a b
+termination_by a b => sizeOf a + sizeOf b
+def refZip (f : Val → Val → Option Val) : List Val → List Val → Option (List Val)
+  | [], [] => some []
+  | x :: xs, y :: ys => do
+    let r ← refA2 f x y
+    let rs ← refZip f xs ys
+    pure (r :: rs)
+  | _, _ => none
+termination_by xs ys => sizeOf xs + sizeOf ys
+def refMapL (f : Val → Val → Option Val) : List Val → Val → Option (List Val)
+  | [], _ => some []
+  | x :: xs, b => do
+    let r ← refA2 f x b
+    let rs ← refMapL f xs b
+    pure (r :: rs)
+termination_by xs b => sizeOf xs + sizeOf b
+def refMapR (f : Val → Val → Option Val) : Val → List Val → Option (List Val)
+  | _, [] => some []
+  | a, y :: ys => do
+    let r ← refA2 f a y
+    let rs ← refMapR f a ys
+    pure (r :: rs)
+termination_by a ys => sizeOf a + sizeOf ys
+end
+
+mutual
+def refA1 (f : Val → Option Val) : Val → Option Val
+  | .list xs => (refMap1 f xs).map .list
+  | a => f a
+def refMap1 (f : Val → Option Val) : List Val → Option (List Val)
+  | [] => some []
+  | x :: xs => do
+    let r ← refA1 f x
+    let rs ← refMap1 f xs
+    pure (r :: rs)
+end
+
+/-! ## implementation: numpy classification, then the ufunc
+
+`kg_asarray` turns a list into a homogeneous N-d array when it is a regular nest of numbers,
+into an object array otherwise.  A ufunc / `vec_fn2` then takes one of three routes:
+flat vector operation (both rank-1 homogeneous, equal length), N-d operation on equal shapes
+(element-wise), element-wise recursion through object arrays.  Operands that are both
+homogeneous but of different shape are broadcast by numpy along trailing axes — that route
+is *not* the reference's atom-to-list extension and is reported as `unmodelled`. -/
+
+inductive Res where
+  | ok (v : Val)
+  | err
+  | unmodelled
+deriving Repr, Inhabited
+
+/-- shape of a regular nest of numbers (`kg_asarray` yields a non-object array) -/
+def numShape : Val → Option (List Nat)
+  | .int _ => some []
+  | .real _ => some []
+  | .list [] => some [0]
+  | .list (x :: xs) =>
+    match numShape x with
+    | none => none
+    | some s =>
+      if (numShapes xs).all (fun t => t == some s) then some ((xs.length + 1) :: s) else none
+  | _ => none
+where
+  numShapes : List Val → List (Option (List Nat))
+    | [] => []
+    | y :: ys => numShape y :: numShapes ys
+
+/-- all elements are numeric atoms: the flat vector a rank-1 homogeneous array holds -/
+def asNums : List Val → Option (List Val)
+  | [] => some []
+  | x :: xs => if x.isNum then (asNums xs).map (x :: ·) else none
+
+def zipNums (f : Val → Val → Option Val) : List Val → List Val → Option (List Val)
+  | [], [] => some []
+  | x :: xs, y :: ys => do
+    let r ← f x y
+    let rs ← zipNums f xs ys
+    pure (r :: rs)
+  | _, _ => none
+
+/-- both operands homogeneous with different shapes: numpy broadcasting applies -/
+def rankMismatch (a b : Val) : Bool :=
+  match numShape a, numShape b with
+  | some s, some t => s != t && s != [] && t != []
+  | _, _ => false
+
+mutual
+def implA2 (f : Val → Val → Option Val) : Val → Val → Option Val
+  | .list xs, .list ys =>
+    match asNums xs, asNums ys with
+    | some is, some js => (zipNums f is js).map .list        -- one flat ufunc call
+    | _, _ => (implZip f xs ys).map .list                     -- N-d / object: element-wise
+  | .list xs, b => (implMapL f xs b).map .list
+  | a, .list ys => (implMapR f a ys).map .list
+  | a, b => f a b
+termination_by a b => sizeOf a + sizeOf b
+def implZip (f : Val → Val → Option Val) : List Val → List Val → Option (List Val)
+  | [], [] => some []
+  | x :: xs, y :: ys => do
+    let r ← implA2 f x y
+    let rs ← implZip f xs ys
+    pure (r :: rs)
+  | _, _ => none
+termination_by xs ys => sizeOf xs + sizeOf ys
+def implMapL (f : Val → Val → Option Val) : List Val → Val → Option (List Val)
+  | [], _ => some []
+  | x :: xs, b => do
+    let r ← implA2 f x b
+    let rs ← implMapL f xs b
+    pure (r :: rs)
+termination_by xs b => sizeOf xs + sizeOf b
+def implMapR (f : Val → Val → Option Val) : Val → List Val → Option (List Val)
+  | _, [] => some []
+  | a, y :: ys => do
+    let r ← implA2 f a y
+    let rs ← implMapR f a ys
+    pure (r :: rs)
+termination_by a ys => sizeOf a + sizeOf ys
+end
+
+/-- somewhere in the paired traversal numpy would broadcast two homogeneous arrays of
+    different shape (decidable; the complement is where `Impl = Ref` is proved) -/
+def anyRankMismatch : Val → Val → Bool
+  | .list xs, .list ys =>
+    rankMismatch (.list xs) (.list ys) ||
+      (numShape (.list xs) == none || numShape (.list ys) == none) && goZip xs ys
+  | _, _ => false
+where
+  goZip : List Val → List Val → Bool
+    | x :: xs, y :: ys => rankMismatch x y || goZip xs ys
+    | _, _ => false
+
+def dyadRes (f : Val → Val → Option Val) (a b : Val) : Res :=
+  if anyRankMismatch a b then .unmodelled
+  else match implA2 f a b with
+    | some v => .ok v
+    | none => .err
+
+/-! ## Python slicing -/
+
+def pyClamp (len : Nat) (i : Int) : Nat :=
+  if i < 0 then (len + i).toNat else min i.toNat len
+
+/-- `xs[start:stop]` -/
+def slice {α} (xs : List α) (start stop : Option Int) : List α :=
+  let n := xs.length
+  let s := match start with | none => 0 | some i => pyClamp n i
+  let e := match stop with | none => n | some i => pyClamp n i
+  (xs.drop s).take (e - s)
+
+def tile {α} (xs : List α) : Nat → List α
+  | 0 => []
+  | k + 1 => xs ++ tile xs k
+
+/-! ## structural verbs on plain lists -/
+
+/-- element `i` of the endless repetition of `b` -/
+def cyc {α} [Inhabited α] (b : List α) (i : Nat) : α := b.getD (i % b.length) default
+
+/-- reference Take: `a` elements from the front (back if negative), cycling -/
+def refTake {α} [Inhabited α] (a : Int) (b : List α) : List α :=
+  if b.length = 0 then []
+  else
+    let m := a.natAbs
+    if a ≥ 0 then (List.range m).map (fun i => cyc b i)
+    else (List.range m).map (fun i => cyc b (b.length - m % b.length + i))
+
+/-- `eval_dyad_take` -/
+def implTake {α} (a : Int) (b : List α) : List α :=
+  let aa := a.natAbs
+  let n := b.length
+  if n = 0 then b
+  else if aa > n then
+    let t := tile b (aa / n)
+    let c := if a > 0 then t ++ slice t none (some ((aa : Int) - t.length))
+             else slice t (some (-((aa : Int) - t.length))) none ++ t
+    if a < 0 then slice c (some a) none else slice c none (some a)
+  else if a < 0 then slice b (some a) none else slice b none (some a)
+
+/-- reference Drop -/
+def refDrop {α} (a : Int) (b : List α) : List α :=
+  if a ≥ 0 then b.drop a.natAbs else b.take (b.length - a.natAbs)
+
+/-- `eval_dyad_drop`: `b[a:] if a >= 0 else b[:a]` -/
+def implDrop {α} (a : Int) (b : List α) : List α :=
+  if a ≥ 0 then slice b (some a) none else slice b none (some a)
+
+/-- reference Rotate: positive = drop from the end, append to the front; count a!#b -/
+def refRotate {α} (a : Int) (b : List α) : List α :=
+  if b.length = 0 then b
+  else
+    let k := (a % (b.length : Int)).toNat      -- Klong's a!#b taken into [0, #b)
+    b.drop (b.length - k) ++ b.take (b.length - k)
+
+/-- `np.roll(b, a)` on a rank-1 array: element i moves to (i + a) mod n -/
+def npRoll {α} [Inhabited α] (b : List α) (a : Int) : List α :=
+  let n := b.length
+  (List.range n).map (fun (i : Nat) => b.getD (((i : Int) - a) % (n : Int)).toNat default)
+
+/-- `eval_dyad_rotate` on a vector -/
+def implRotate {α} [Inhabited α] (a : Int) (b : List α) : List α :=
+  if a = 0 then b else npRoll b a
+
+/-- reference Split, integer size: consecutive segments of `a`, the last may be shorter -/
+def refSplitN {α} (fuel : Nat) (a : Nat) (b : List α) : List (List α) :=
+  match fuel with
+  | 0 => []
+  | fuel + 1 => if b.isEmpty then [] else b.take a :: refSplitN fuel a (b.drop a)
+
+/-- reference Split with a list of sizes, cycling -/
+def refSplitL {α} (fuel : Nat) (sizes : List Nat) (p : Nat) (b : List α) : List (List α) :=
+  match fuel with
+  | 0 => []
+  | fuel + 1 =>
+    if b.isEmpty then []
+    else
+      let s := sizes.getD p 0
+      b.take s :: refSplitL fuel sizes (if p + 1 ≥ sizes.length then 0 else p + 1) (b.drop s)
+
+/-- `np.array_split(b, k)`: k sections, the first `n % k` have `n / k + 1` elements -/
+def npArraySplit {α} (b : List α) (k : Nat) : List (List α) :=
+  let n := b.length
+  let q := n / k
+  let r := n % k
+  (List.range k).map fun i =>
+    let start := if i < r then i * (q + 1) else r * (q + 1) + (i - r) * q
+    let len := if i < r then q + 1 else q
+    (b.drop start).take len
+
+/-- `eval_dyad_split` with integer `a` on the pinned tree: `array_split` into
+    ceil(n/a) nearly equal parts -/
+def implSplitN_pinned {α} (a : Nat) (b : List α) : List (List α) :=
+  if b.length = 0 then []
+  else if a ≥ b.length then [b]
+  else
+    let k := b.length / a
+    let k := if k * a < b.length then k + 1 else k
+    npArraySplit b k
+
+/-- `eval_dyad_split` with integer `a` (repaired): slices of size `a` -/
+def implSplitN {α} (a : Nat) (b : List α) : List (List α) :=
+  if b.length = 0 then []
+  else if a ≥ b.length then [b]
+  else (List.range ((b.length + a - 1) / a)).map fun i => (b.drop (i * a)).take a
+
+/-- reference Cut: cut `b` before the positions in `ps` (monotone) -/
+def refCut {α} (ps : List Nat) (b : List α) : List (List α) :=
+  go 0 ps b
+where
+  go (prev : Nat) : List Nat → List α → List (List α)
+    | [], rest => [rest]
+    | p :: ps, rest => rest.take (p - prev) :: go p ps (rest.drop (p - prev))
+
+def refReverse {α} (b : List α) : List α := b.reverse
+
+/-- `a[::-1]` -/
+def implReverse {α} [Inhabited α] (b : List α) : List α :=
+  (List.range b.length).map (fun i => b.getD (b.length - 1 - i) default)
+
+def refEnumerate (n : Nat) : List Val := (List.range n).map (fun (i : Nat) => Val.int (i : Int))
+
+/-- reference Expand/Where -/
+def refExpand (cs : List Nat) : List Val :=
+  (cs.zipIdx.map fun (c, i) => List.replicate c (Val.int i)).flatten
+
+/-- reference Range: unique elements in order of appearance (by `eq`) -/
+def refRange {α} (eq : α → α → Bool) : List α → List α
+  | [] => []
+  | x :: xs => x :: (refRange eq xs).filter (fun y => !eq x y)
+
+/-- reference Group: indices of equal elements, groups in order of first appearance -/
+def refGroup {α} (eq : α → α → Bool) (xs : List α) : List (List Nat) :=
+  let idx := xs.zipIdx
+  (refRange eq xs).map fun k => (idx.filter fun p => eq k p.1).map (·.2)
+
+/-! ## values: strings as character lists -/
+
+def strChars (cs : List Nat) : List Val := cs.map .chr
+
+def joinChars : List Val → Option (List Nat)
+  | [] => some []
+  | .chr c :: r => (joinChars r).map (c :: ·)
+  | .str s :: r => (joinChars r).map (s ++ ·)
+  | _ => none
+
+instance : Inhabited Val := ⟨.undef⟩
+
+/-- apply a list function to a list or string operand, restoring the kind -/
+def onSeq (f : List Val → List Val) : Val → Option Val
+  | .list xs => some (.list (f xs))
+  | .str cs => (joinChars (f (strChars cs))).map .str
+  | _ => none
+
+def segs (strk : Bool) (r : List (List Val)) : Option Val :=
+  if strk then (r.mapM joinChars).map (fun ss => .list (ss.map .str))
+  else some (.list (r.map .list))
+
+/-! ## Match (`~`) for Range / Group -/
+
+mutual
+def vmatch : Val → Val → Bool
+  | .list xs, .list ys => vmatchL xs ys
+  | a, b =>
+    match toF a, toF b with
+    | some x, some y => x == y
+    | _, _ => a == b
+def vmatchL : List Val → List Val → Bool
+  | [], [] => true
+  | x :: xs, y :: ys => vmatch x y && vmatchL xs ys
+  | _, _ => false
+end
+
+/-! ## verb tables -/
+
+def aopOf : String → Option AOp
+  | "+" => some .add | "-" => some .sub | "*" => some .mul | "&" => some .min | "|" => some .max
+  | "<" => some .lt | ">" => some .gt | "=" => some .eq | "!" => some .rem | ":%" => some .idiv
+  | _ => none
+
+def natList : List Val → Option (List Nat)
+  | [] => some []
+  | .int n :: r => if n < 0 then none else (natList r).map (n.toNat :: ·)
+  | _ => none
+
+def isSeq : Val → Bool
+  | .list _ => true | .str _ => true | _ => false
+
+def seqLen : Val → Nat
+  | .list xs => xs.length | .str cs => cs.length | _ => 0
+
+/-- reference for dyads: `none` where the manual defines nothing -/
+def refDyad (verb : String) (a b : Val) : Option Val :=
+  match aopOf verb with
+  | some op => refA2 (scalar2 op) a b
+  | none =>
+    match verb, a, b with
+    | "#", .int n, b => if seqLen b = 0 && n != 0 then none else onSeq (refTake n) b
+    | "_", .int n, b => onSeq (refDrop n) b
+    | ":+", .int n, b => if isSeq b then onSeq (refRotate n) b else some b
+    | ":#", .int n, b =>
+      if n ≤ 0 then none else
+      match b with
+      | .list xs => segs false (refSplitN (xs.length + 1) n.toNat xs)
+      | .str cs => segs true (refSplitN (cs.length + 1) n.toNat (strChars cs))
+      | _ => none
+    | ":#", .list sz, b =>
+      match natList sz with
+      | some sizes =>
+        if sizes.isEmpty || sizes.any (· == 0) then none else
+        match b with
+        | .list xs => segs false (refSplitL (xs.length + 1) sizes 0 xs)
+        | .str cs => segs true (refSplitL (cs.length + 1) sizes 0 (strChars cs))
+        | _ => none
+      | none => none
+    | ":_", .int n, b =>
+      if n < 0 || n.toNat > seqLen b then none else
+      match b with
+      | .list xs => segs false (refCut [n.toNat] xs)
+      | .str cs => segs true (refCut [n.toNat] (strChars cs))
+      | _ => none
+    | ":_", .list ps, b =>
+      match natList ps with
+      | some ps =>
+        if !(ps.zip (ps.drop 1)).all (fun (x, y) => x ≤ y) || ps.any (· > seqLen b) then none else
+        match b with
+        | .list xs => segs false (refCut ps xs)
+        | .str cs => segs true (refCut ps (strChars cs))
+        | _ => none
+      | none => none
+    | "~", a, b => some (b2i (vmatch a b))
+    | _, _, _ => none
+
+/-- implementation model for dyads -/
+def implDyad (verb : String) (a b : Val) : Res :=
+  match aopOf verb with
+  | some op => dyadRes (scalar2 op) a b
+  | none =>
+    let lift (o : Option Val) : Res := match o with | some v => .ok v | none => .err
+    match verb, a, b with
+    | "#", .int n, b => if isSeq b then lift (onSeq (implTake n) b) else .unmodelled
+    | "_", .int n, b => if isSeq b then lift (onSeq (implDrop n) b) else .unmodelled
+    | ":+", .int n, b => if isSeq b then
+        (match b with
+         | .list xs => if n != 0 && (numShape b).any (·.length > 1) then .unmodelled   -- np.roll flattens
+                       else lift (some (.list (implRotate n xs)))
+         | _ => lift (onSeq (implRotate n) b))
+      else .ok b
+    | ":#", .int n, b =>
+      if n ≤ 0 then .unmodelled else
+      match b with
+      | .list xs => lift (segs false (implSplitN n.toNat xs))
+      | .str cs => lift (segs true (implSplitN n.toNat (strChars cs)))
+      | _ => .unmodelled
+    | _, _, _ => .unmodelled
+
+/-- reference for monads -/
+def refMonad (verb : String) (a : Val) : Option Val :=
+  match verb, a with
+  | "-", a => refA1 (fun x => match x with
+      | .int n => some (.int (-n)) | .real b => some (ofF (-(Float.ofBits b))) | _ => none) a
+  | "|", a => if isSeq a then onSeq refReverse a else some a
+  | "*", .list [] => some (.list [])
+  | "*", .list (x :: _) => some x
+  | "*", .str [] => some (.str [])
+  | "*", .str (c :: _) => some (.chr c)
+  | "*", a => some a
+  | "#", .list xs => some (.int xs.length)
+  | "#", .str cs => some (.int cs.length)
+  | "!", .int n => if n < 0 then none else some (.list (refEnumerate n.toNat))
+  | "&", .int n => if n < 0 then none else some (.list (List.replicate n.toNat (.int 0)))
+  | "&", .list xs => (natList xs).map fun cs => .list (refExpand cs)
+  | "?", .list xs => some (.list (refRange vmatch xs))
+  | "?", .str cs => (joinChars (refRange vmatch (strChars cs))).map .str
+  | "=", .list xs => some (.list ((refGroup vmatch xs).map fun g => .list (g.map fun (i : Nat) => Val.int (i : Int))))
+  | "=", .str cs => some (.list ((refGroup vmatch (strChars cs)).map fun g => .list (g.map fun (i : Nat) => Val.int (i : Int))))
+  | "@", a => some (b2i a.isAtom)
+  | ",", .chr c => some (.str [c])       -- a list of one character is a string
+  | ",", a => some (.list [a])
+  | _, _ => none
+
+def implMonad (verb : String) (a : Val) : Res :=
+  let lift (o : Option Val) : Res := match o with | some v => .ok v | none => .err
+  match verb, a with
+  | "-", a => lift (refA1 (fun x => match x with
+      | .int n => some (.int (-n)) | .real b => some (ofF (-(Float.ofBits b))) | _ => none) a)
+  | "|", a => if isSeq a then lift (onSeq implReverse a) else .ok a     -- repaired: atoms unchanged
+  | "*", .list [] => .ok (.list [])
+  | "*", .list (x :: _) => .ok x
+  | "*", .str [] => .ok (.str [])
+  | "*", .str (c :: _) => .ok (.chr c)
+  | "#", .list xs => .ok (.int xs.length)
+  | "#", .str cs => .ok (.int cs.length)
+  | "!", .int n => if n < 0 then .unmodelled else .ok (.list (refEnumerate n.toNat))
+  | _, _ => .unmodelled
+
+/-! ## driver -/
+
+def showRes : Res → String
+  | .ok v => "ok:" ++ v.toWire
+  | .err => "err"
+  | .unmodelled => "unmodelled"
+
+def showOpt : Option Val → String
+  | some v => v.toWire
+  | none => "none"
 
 structure State where
   unit : Unit := ()
 
 def init : State := {}
 
-def handle (s : State) (_ws : List String) : State × String := (s, "bad-op")
+def handle (s : State) (ws : List String) : State × String :=
+  match ws with
+  | "D" :: verb :: rest =>
+    match Val.parseMany (Val.tokenize (" ".intercalate rest)) with
+    | some [a, b] =>
+      (s, s!"ref={showOpt (refDyad verb a b)} impl={showRes (implDyad verb a b)}")
+    | _ => (s, "bad-op")
+  | "M" :: verb :: rest =>
+    match Val.parseMany (Val.tokenize (" ".intercalate rest)) with
+    | some [a] => (s, s!"ref={showOpt (refMonad verb a)} impl={showRes (implMonad verb a)}")
+    | _ => (s, "bad-op")
+  | _ => (s, "bad-op")
 
 end Klong.C01
